@@ -3480,6 +3480,13 @@ func (pid *PID) spawnChildLocal(ctx context.Context, name string, actor Actor, c
 			return existing, nil
 		}
 
+		// The id is still held by a child that is stopping, suspended or not yet
+		// reaped by the death watch: a second instance could not be inserted and
+		// would run outside the tree.
+		if cnode, held := tree.node(childAddress.String()); held && cnode.value() != nil {
+			return nil, gerrors.NewErrActorAlreadyExists(name)
+		}
+
 		if config.dependencies != nil {
 			_ = pid.ActorSystem().Inject(config.dependencies...)
 		}
